@@ -137,6 +137,28 @@ def _chunk(seed, lo, hi, extra):
                         fail(f"C06/formatter-with-history-differs/{fcls.__name__}{'/tags' if kw else ''}")
                 except Exception as e:  # noqa
                     fail(f"C06/formatter-with-history-raises/{fcls.__name__}/{real.exc_sig(e)}")
+            # (c') the same through the text entry point, where the formatter's normalize flag also decides how the
+            # documents are parsed: the history is a call made while the formatter carried another flag value
+            if idx % 3 == 0:
+                from props import c14
+                rr = core.rng_for(seed, "U12fmt", idx)
+                T = c14.plain_attrs(c14.sep_tree(rr))
+                s1, s2 = rr.sample(c14.SCHEMES, 2)
+                a, b = c14.serialize_indented(T, s1), c14.serialize_indented(T, s2)
+                for fcls in (formatting.DiffFormatter, formatting.XmlDiffFormatter, formatting.XMLFormatter):
+                    for n_hist, n_now in ((formatting.WS_TAGS, formatting.WS_NONE), (formatting.WS_NONE, formatting.WS_BOTH),
+                                          (formatting.WS_TEXT, formatting.WS_TAGS)):
+                        try:
+                            want = main.diff_texts(a, b, formatter=fcls(normalize=n_now))
+                            f = fcls(normalize=n_hist)
+                            main.diff_texts(b, a, formatter=f)
+                            f.normalize = n_now
+                            got = main.diff_texts(a, b, formatter=f)
+                        except Exception as e:  # noqa
+                            fail(f"C06/formatter-with-history-raises/{fcls.__name__}/{real.exc_sig(e)}")
+                            continue
+                        if got != want:
+                            fail(f"C06/formatter-with-history-differs/{fcls.__name__}/normalize-changed-between-calls")
             # patcher
             script_before = list(fresh)
             want = ser(main.patch_tree(fresh, le))
